@@ -1,3 +1,4 @@
+(* C41: header round trip (serialise then parse). *)
 From V Require Import Model.PtpWire Proofs.WireBytes.
 From Coq Require Import ZifyBool.
 Ltac Zify.zify_post_hook ::= Z.div_mod_to_equations.
@@ -100,3 +101,4 @@ Proof.
   change 256 with (2 ^ 8) at 1. rewrite (to_signed_wrap 8 li) by lia.
   rewrite !Z.mod_small by lia. reflexivity.
 Qed.
+
